@@ -101,6 +101,12 @@ func (prop) Generate(rng *rand.Rand, tier string) []corr.Case {
 		ops := []string{fmt.Sprintf("reset %s %s", corr.Hex(root), kvStr)}
 		nOps := 1 + rng.Intn(14)
 		snaps := 0
+		var usedVals []string
+		for _, kv := range kvs {
+			if i := strings.IndexByte(kv, '='); i >= 0 && kv[i+1:] != "-" {
+				usedVals = append(usedVals, kv[i+1:])
+			}
+		}
 		vsnaps := map[string]int{}
 		for j := 0; j < nOps; j++ {
 			p := corr.Hex(viewPrefixes[rng.Intn(len(viewPrefixes))])
@@ -116,7 +122,15 @@ func (prop) Generate(rng *rand.Rand, tier string) []corr.Case {
 			case r < 15:
 				ops = append(ops, fmt.Sprintf("has %s %s", p, corr.Hex(genKey(rng, 2))))
 			case r < 35:
-				ops = append(ops, fmt.Sprintf("set %s %s %s", p, corr.Hex(genKey(rng, 2)), corr.Hex(genVal(rng))))
+				v := corr.Hex(genVal(rng))
+				if len(usedVals) > 0 && rng.Intn(3) == 0 {
+					v = usedVals[rng.Intn(len(usedVals))] // a value staged / stored before: the harness stages the same buffer
+					if rng.Intn(2) == 0 && len(v) > 2 {
+						v = v[:len(v)-2] // or a shorter one, which fits the old buffer
+					}
+				}
+				usedVals = append(usedVals, v)
+				ops = append(ops, fmt.Sprintf("set %s %s %s", p, corr.Hex(genKey(rng, 2)), v))
 			case r < 50:
 				ops = append(ops, fmt.Sprintf("del %s %s", p, corr.Hex(genKey(rng, 2))))
 			case r < 65:
@@ -276,6 +290,10 @@ type runner struct {
 	eff      map[string][]byte
 	prevBase map[string][]byte
 	refSnaps map[int]map[string][]byte
+	// value buffers: a value that was staged before, or that a Range / Iterate handed out, is staged again as the
+	// SAME []byte object (callers copy values between keys without cloning them; Set keeps the caller's slice and
+	// scans hand out the overlay's own slices - none of them may ever be written into)
+	bufs map[string][]byte
 	// snapshots taken through view handles: handle prefix -> id -> reference state
 	refVSnaps map[string]map[int]map[string][]byte
 	fails     []corr.Fail
@@ -295,6 +313,18 @@ func copyMap(m map[string][]byte) map[string][]byte {
 		r[k] = v
 	}
 	return r
+}
+
+// keepBufs remembers the value slices a scan handed out: a later `set` of an equal value stages that very slice.
+func (r *runner) keepBufs(kvs []db.KeyValue) {
+	if r.bufs == nil {
+		r.bufs = map[string][]byte{}
+	}
+	for _, kv := range kvs {
+		if v := kv.Value(); len(v) > 0 {
+			r.bufs[string(v)] = v
+		}
+	}
 }
 
 func showKVs(kvs []db.KeyValue) string {
@@ -409,6 +439,7 @@ func (r *runner) step(op string) string {
 		r.refSnaps, r.refVSnaps = map[int]map[string][]byte{}, map[string]map[int]map[string][]byte{}
 		r.root = diffdb.New(d, r.rootPfx)
 		r.lastDiff = nil
+		r.bufs = map[string][]byte{}
 		return "ok"
 	case "get", "has":
 		p, k := corr.UnHex(w[1]), corr.UnHex(w[2])
@@ -431,8 +462,16 @@ func (r *runner) step(op string) string {
 		return "some " + corr.Hex(v)
 	case "set":
 		p, k, v := corr.UnHex(w[1]), corr.UnHex(w[2]), corr.UnHex(w[3])
+		if r.bufs == nil {
+			r.bufs = map[string][]byte{}
+		}
+		if b, ok := r.bufs[string(v)]; ok && len(v) > 0 {
+			v = b // the same buffer object as before
+		} else {
+			r.bufs[string(v)] = v
+		}
 		r.view(p).Set(k, v)
-		r.eff[string(join(r.rootPfx, p, k))] = v
+		r.eff[string(join(r.rootPfx, p, k))] = append([]byte{}, v...) // the reference keeps its own copy
 		return "ok"
 	case "del":
 		p, k := corr.UnHex(w[1]), corr.UnHex(w[2])
@@ -442,7 +481,9 @@ func (r *runner) step(op string) string {
 	case "range":
 		p, s, e := corr.UnHex(w[1]), corr.UnHex(w[2]), corr.UnHex(w[3])
 		limit, rev := atoi(w[4]), w[5] == "1"
-		got := showKVs(r.view(p).Range(s, e, limit, rev))
+		kvsR := r.view(p).Range(s, e, limit, rev)
+		r.keepBufs(kvsR)
+		got := showKVs(kvsR)
 		fs, fe := join(r.rootPfx, p, s), join(r.rootPfx, p, e)
 		want := refScan(r.eff, func(k []byte) bool { return bytes.Compare(k, fs) >= 0 && bytes.Compare(k, fe) <= 0 }, len(r.rootPfx)+len(p), limit, rev)
 		if got != want {
@@ -452,7 +493,9 @@ func (r *runner) step(op string) string {
 	case "iter":
 		p, pre := corr.UnHex(w[1]), corr.UnHex(w[2])
 		limit, rev := atoi(w[3]), w[4] == "1"
-		got := showKVs(r.view(p).Iterate(pre, limit, rev))
+		kvsI := r.view(p).Iterate(pre, limit, rev)
+		r.keepBufs(kvsI)
+		got := showKVs(kvsI)
 		fp := join(r.rootPfx, p, pre)
 		want := refScan(r.eff, func(k []byte) bool { return bytes.HasPrefix(k, fp) }, len(r.rootPfx)+len(p), limit, rev)
 		if got != want {
